@@ -72,7 +72,7 @@ func handleSet(params internal.HandlerFuncParams) ([]byte, error) {
 	}
 
 	if err = params.SetValues(params.Context, map[string]interface{}{
-		key: internal.AdaptType(value),
+		key: internal.AdaptValue(value),
 	}); err != nil {
 		return nil, err
 	}
@@ -96,7 +96,7 @@ func handleMSet(params internal.HandlerFuncParams) ([]byte, error) {
 	// Extract all the key/value pairs
 	for i, key := range params.Command[1:] {
 		if i%2 == 0 {
-			entries[key] = internal.AdaptType(params.Command[1:][i+1])
+			entries[key] = internal.AdaptValue(params.Command[1:][i+1])
 		}
 	}
 
